@@ -197,6 +197,7 @@ func init() {
 			"(E3.emitted-length) framing helpers derive header length and the extended-length flag from the bytes they emit, not from a stored Length; (E6.addpath-direction) decoders ask for the receive direction of ADD-PATH and serialisers for the send direction; (E3.guard-order) writer and reader of a type test the same option constants in the same order around wire-touching statements; (E3.decoded-fields) every field a decodable type's Serialize reads is filled somewhere on the decode side. (E4.case-ratchet) against a committed baseline, no switch of the code this property is anchored in has lost a named case. (E6.call-ratchet) against a committed baseline, no function of that code has stopped calling (directly or through helpers) a non-trivial callee it called on the reviewed tree.",
 		Not: "Byte-level correctness of any encoder/decoder, Len()==bytes emitted, equality after a round trip and RFC well-formedness of emitted messages are value-level and not decided.",
 		Run: func(c *Ctx) {
+			c.ruleRatchets("C04")
 			c.ruleDecodeProduces("E4.decode-produces", []string{"pkg/packet/bgp"}, 200)
 			c.ruleAttrTables()
 			c.rulePurity("E2d.pure", []string{"pkg/packet/bgp"}, 500)
@@ -205,8 +206,6 @@ func init() {
 			c.ruleGuardOrder("E3.guard-order", []string{"pkg/packet/bgp"}, 3)
 			c.ruleDecodedFields("E3.decoded-fields", []string{"pkg/packet/bgp"}, 150)
 			c.ruleOptionScanAny("E6.option-scan-any")
-			c.ruleCaseRatchet("E4.case-ratchet", []string{"pkg/packet/bgp"}, func(f string) bool { return !strings.HasSuffix(f, "validate.go") }, "baselines/switches.json", 60)
-			c.ruleCallRatchet("E6.call-ratchet", []string{"pkg/packet/bgp"}, func(f string) bool { return !strings.HasSuffix(f, "validate.go") }, "baselines/calls.json", 300)
 		},
 	})
 	register(&Check{
@@ -214,6 +213,7 @@ func init() {
 		Expl: "Decides one clause of the statement — 'the caller's buffer is left unmodified' — for every function on the decode side of pkg/packet/bgp: no store, copy, append-in-place or in-place mutator targets a []byte parameter or memory derived from it (interprocedural taint with writes-param / returns-alias summaries), and no field that retains a sub-slice of the input is written through anywhere in the module. Also decides one cause of crashes exactly: (E5.narrow-guard) no length guard is computed in uint8/uint16 arithmetic that can wrap for some peer-chosen length (upper bounds from constants, widening conversions and dominating comparisons). Also: (E5.loop-progress) every decode loop whose continuation test depends on one loop variable changes that variable on every back edge; (E6.exact-body) ParseBGPMessage hands the body decoder exactly the declared message. (E3.decoded-non-nil) a successfully decoded object has every pointer/interface field assigned that its Serialize dereferences unguarded; (E5.bounds-ratchet) against a committed baseline, no decode function with unchanged accesses has fewer constant-offset accesses provably in bounds than on the reviewed tree. (E5.errors-checked) every error returned to decode-side code by a module function is used.",
 		Not:  "Crash-freedom, termination, bounded allocation and in-bounds access are NOT decided: a length-guard prover was prototyped and left 181 of 453 slice accesses unproven (value relations between cached lengths and slices), so it is not armed (DESIGN.md §6.1).",
 		Run: func(c *Ctx) {
+			c.ruleRatchets("C05")
 			c.ruleInputImmutable("E2c.input", []string{"pkg/packet/bgp"}, 120)
 			c.ruleNarrowGuard("E5.narrow-guard", []string{"pkg/packet/bgp"}, 3)
 			c.ruleLoopProgress("E5.loop-progress", []string{"pkg/packet/bgp"}, 30)
@@ -221,6 +221,8 @@ func init() {
 			c.ruleDecodedNonNil("E3.decoded-non-nil", []string{"pkg/packet/bgp"}, 6)
 			c.ruleConstBounds("E5.bounds-ratchet", []string{"pkg/packet/bgp"}, "baselines/bounds.json", 100)
 			c.ruleErrorsChecked("E5.errors-checked", []string{"pkg/packet/bgp"}, errorsDiscardedReviewed, 400)
+			c.ruleErrorExitRatchet("E5.error-exit-ratchet", []string{"pkg/packet/bgp"}, "baselines/errexits.json", 150)
+			c.ruleNoPrefilledPointers("E3.no-prefilled-pointers", []string{"pkg/packet/bgp", "pkg/packet/mrt", "pkg/packet/bmp", "pkg/packet/rtr", "pkg/zebra"}, 2)
 		},
 	})
 	register(&Check{
@@ -228,6 +230,7 @@ func init() {
 		Expl: "Decides for pkg/packet/{mrt,bmp,rtr,bfd} and pkg/zebra: (E2c) decoders never write their input buffer nor anything that retains a part of it; (E4.decode-produces) every message/TLV type with a serialiser is allocated on the decode side; (E6.split) stream splitters compare len(input) — not cap — with the very bound they slice by; (E3.guard-order) the writer and the reader of one structure test the same flag constants in the same order around their wire-touching statements and under the same protocol versions (finite version domain); (E4.mrt-rib-families) the MRT reader, Rib.Serialize and the dump writer agree on which families have AFI/SAFI-specific RIB subtypes; (E3.decoded-fields) every field a decodable type's Serialize reads is filled somewhere on the decode side. Also: (E5.loop-progress) decode loops change their loop variable on every back edge. (E5.bounds-ratchet) the same length-guard ratchet for the MRT, BMP, RTR, BFD and ZAPI decoders. (E5.errors-checked) every error returned to decode-side code by a module function is used. (E4.case-ratchet) against a committed baseline, no switch of the code this property is anchored in has lost a named case. (E6.call-ratchet) against a committed baseline, no function of that code has stopped calling (directly or through helpers) a non-trivial callee it called on the reviewed tree.",
 		Not:  "Crash-freedom and termination of the decoders, and round-trip equality, are value-level and not decided. ZAPI field symmetry is excluded (request and response bodies are directional).",
 		Run: func(c *Ctx) {
+			c.ruleRatchets("C19")
 			c.ruleInputImmutable("E2c.input", []string{"pkg/packet/mrt", "pkg/packet/bmp", "pkg/packet/rtr", "pkg/packet/bfd", "pkg/zebra"}, 60)
 			c.ruleDecodeProduces("E4.decode-produces", []string{"pkg/packet/bmp", "pkg/packet/mrt", "pkg/packet/rtr"}, 20)
 			c.ruleSplitters()
@@ -237,8 +240,7 @@ func init() {
 			c.ruleLoopProgress("E5.loop-progress", []string{"pkg/packet/mrt", "pkg/packet/bmp", "pkg/packet/rtr", "pkg/packet/bfd", "pkg/zebra"}, 10)
 			c.ruleConstBounds("E5.bounds-ratchet", []string{"pkg/packet/mrt", "pkg/packet/bmp", "pkg/packet/rtr", "pkg/packet/bfd", "pkg/zebra"}, "baselines/bounds.json", 20)
 			c.ruleErrorsChecked("E5.errors-checked", []string{"pkg/packet/mrt", "pkg/packet/bmp", "pkg/packet/rtr", "pkg/zebra"}, errorsDiscardedReviewed, 40)
-			c.ruleCaseRatchet("E4.case-ratchet", []string{"pkg/packet/mrt", "pkg/packet/bmp", "pkg/packet/rtr", "pkg/packet/bfd", "pkg/zebra"}, nil, "baselines/switches.json", 25)
-			c.ruleCallRatchet("E6.call-ratchet", []string{"pkg/packet/mrt", "pkg/packet/bmp", "pkg/packet/rtr", "pkg/packet/bfd", "pkg/zebra"}, nil, "baselines/calls.json", 80)
+			c.ruleErrorExitRatchet("E5.error-exit-ratchet", []string{"pkg/packet/mrt", "pkg/packet/bmp", "pkg/packet/rtr", "pkg/packet/bfd", "pkg/zebra"}, "baselines/errexits.json", 30)
 		},
 	})
 }
